@@ -98,6 +98,7 @@ fn modes() -> Vec<ModeSpec> {
         ModeSpec { name: "heading-stats", args: vec!["--heading", "-n", "--stats"], split: Split::Heading },
         ModeSpec { name: "count", args: vec!["-c"], split: Split::Lines },
         ModeSpec { name: "files-with-matches", args: vec!["-l"], split: Split::Lines },
+        ModeSpec { name: "files-with-matches-hyperlinks", args: vec!["-l", "--color", "always", "--hyperlink-format", "file://{path}"], split: Split::Lines },
         ModeSpec { name: "files-without-match", args: vec!["--files-without-match"], split: Split::Lines },
         ModeSpec { name: "json", args: vec!["--json"], split: Split::Json },
         ModeSpec { name: "files", args: vec!["--files"], split: Split::Lines },
@@ -654,7 +655,7 @@ pub fn run(args: &Args) -> ! {
     ev.set(
         "rule",
         format!(
-            "Every execution is the REAL rg binary (built with ignore/verif-hooks) on a scratch tree, its parallel walker's workers serialised by the cooperative replay scheduler installed from RG_VERIF_SCHED; explored: every interleaving of the hooked walker points with at most {} preemption(s) (budget {} schedules per configuration), for 8 trees (one of two text files and two explicitly named binary files whose whole output is the binary notice; one with symbolic links to files above and below --max-filesize, searched with -L; 3-5 files of unequal size in 1-3 directories; one with a dangling symlink under -L; one searched through a --pre command that fails for two files after producing output; one given as five root paths, more than there are threads; one given as an explicit file, a directory holding two binary files, and another explicit file) x 12 output modes (no-heading, --heading, -C1, -C1 --crlf, -C1 --stats, --heading --stats, -c, -l, --files-without-match, --json, --files, -q) x threads {:?}, plus --sort path. Oracle: the same command at -j1: same exit status; stdout split into per-file blocks by the mode's own framing is a permutation of the single-threaded blocks, each file contiguous and once, separators exactly between blocks; with --sort byte-identical. states = distinct outputs produced; transitions = scheduling decisions executed; traces_validated_against_impl = schedules executed.",
+            "Every execution is the REAL rg binary (built with ignore/verif-hooks) on a scratch tree, its parallel walker's workers serialised by the cooperative replay scheduler installed from RG_VERIF_SCHED; explored: every interleaving of the hooked walker points with at most {} preemption(s) (budget {} schedules per configuration), for 8 trees (one of two text files and two explicitly named binary files whose whole output is the binary notice; one with symbolic links to files above and below --max-filesize, searched with -L; 3-5 files of unequal size in 1-3 directories; one with a dangling symlink under -L; one searched through a --pre command that fails for two files after producing output; one given as five root paths, more than there are threads; one given as an explicit file, a directory holding two binary files, and another explicit file) x 13 output modes (no-heading, --heading, -C1, -C1 --crlf, -C1 --stats, --heading --stats, -c, -l with colours and hyperlinks, -l, --files-without-match, --json, --files, -q) x threads {:?}, plus --sort path. Oracle: the same command at -j1: same exit status; stdout split into per-file blocks by the mode's own framing is a permutation of the single-threaded blocks, each file contiguous and once, separators exactly between blocks; with --sort byte-identical. states = distinct outputs produced; transitions = scheduling decisions executed; traces_validated_against_impl = schedules executed.",
             pbound, tier.pick(400, 6000), tier.pick(vec![2], vec![2, 3])
         ),
     );
